@@ -74,6 +74,40 @@ CHECKS = {
         "note": NOTE + " Assumes a finite sync interval or reachable size thresholds (configuration).",
         "technique": "static analysis: must-pass / dominance rules over MIR",
     },
+    "C24": {
+        "text": "Decides range and purity for the whole input space by interval reasoning over the function's terms: no arithmetic overflow, no division by zero, no push beyond "
+                "capacity; every element pushed is reduced modulo num_partitions, the first is partition_hash % num_partitions; no clock/RNG/hash-ordered container. "
+                "Pairwise distinctness (coprimality of the jump) is number theory and is argued by hand, not decided.",
+        "note": NOTE + " The interval domain tracks type ranges, zero-extending casts, constants, %, /, min/max and comparison-with-constant refinements only.",
+        "technique": "static analysis: panic audit with interval abstraction over MIR terms, value-shape and purity rules",
+    },
+    "C25": {
+        "text": "Decides panic-freedom of the version algebra on its domain (every overflow site discharged by an interval, a cmp-arm relational guard, or a reasoned allow-list "
+                "entry), the inverse shapes of from_next_version / into_next_version, and that Display and FromStr use the same keyword table. The equality of is_satisfied_by "
+                "with the store's validator is not decided.",
+        "note": NOTE,
+        "technique": "static analysis: panic audit with intervals and relational guards, shape rules, keyword-table sibling comparison",
+    },
+    "C26": {
+        "text": "Decides panic-freedom of every breaker method (clock/atomic differences saturate, Duration subtraction is guarded) and the two races the property names as structure: "
+                "no counter reset after a discarded compare_exchange or after the state is published; every admission that can happen in (or on entering) half-open passes a "
+                "counted fetch_add compared `< max`; Open is only stored under failures >= threshold or from half-open. Does not enumerate interleavings.",
+        "note": NOTE,
+        "technique": "static analysis: panic audit, ordering of atomic stores, must-pass of the probe counter on MIR",
+    },
+    "C13": {
+        "text": "Decides agreement of storage placement and routing as sibling normal forms: the bucket->primary kernels (today they differ: KNOWN-FINDING D12), the direction "
+                "of the replica ring walk (node = primary + offset on both sides), the min(rf, N) bound, partition->bucket by `%` at every site, and that main derives the "
+                "storage buckets and the cluster partitions from one assigned_buckets() value. Numerical agreement of two different kernels is not decided.",
+        "note": NOTE,
+        "technique": "static analysis: sibling normal forms of arithmetic kernels (linear/modular terms), value-flow in main",
+    },
+    "C14": {
+        "text": "Decides: no narrowing cast of a count in the placement code, effective rf = min(rf as usize, N) in both topology functions, both walk (primary + offset) % N, and "
+                "get_available_replicas sorts by a total order (alive_since, then replica). Does not enumerate membership-event orders.",
+        "note": NOTE + " Assumes node count >= 1 and bucket count >= 1 (configuration validation).",
+        "technique": "static analysis: cast audit with intervals, kernel shape comparison, comparator totality check on the sort closure",
+    },
     "C04": {
         "text": "For all paths of both commit-matching readers: a Transaction is returned only under commit id == pending id and a non-empty list, a Single only "
                 "under a set flag and an empty list, a change of the pending id resets the list, and the two sibling implementations have the same "
